@@ -91,9 +91,9 @@ Definition has_path (o : popts) (rp : string) (name : string) (idx : Z) (root : 
 
 (** field.SetValue: [ov] is the stored name the inserted value keeps when it already has
     a context (an attached *Config given to SetChild); [None] for fresh values. *)
-Definition huge_idx : Z := 1099511627776.   (* 2^40: make([]value, idx+1) cannot succeed *)
-
-Definition set_field (f : field) (pp : string) (elem : value) (ov : option string) (v : value)
+(* [mx]: the maximum index (options.maxIdx): a list grows up to it only; writing below the
+   current length is possible whatever the length *)
+Definition set_field (mx : Z) (f : field) (pp : string) (elem : value) (ov : option string) (v : value)
   : res value :=
   match elem with
   | VSub d a =>
@@ -101,19 +101,19 @@ Definition set_field (f : field) (pp : string) (elem : value) (ov : option strin
     | FName n => Ok (VSub (dict_set n (match ov with Some s => s | None => n end, v) d) a)
     | FIdx i =>
       if i <? 0 then Err EIndexOutOfRange pp
-      else if huge_idx <=? i then Panic
+      else if (lenZ (arr_of a) <=? i) && (mx <? i) then Err EIndexOutOfRange pp
       else Ok (VSub d (arr_set_at a i (match ov with Some s => s | None => dec i end, v)))
     end
   | _ => Err EExpectedObject ""
   end.
 
 (** intermediate nodes built bottom-up from fresh configs *)
-Fixpoint build (fs : list field) (ov : option string) (val : value) : res (option string * value) :=
+Fixpoint build (mx : Z) (fs : list field) (ov : option string) (val : value) : res (option string * value) :=
   match fs with
   | [] => Ok (ov, val)
   | f :: r =>
-    x <- build r ov val ;;
-    n <- set_field f "" empty_cfg (fst x) (snd x) ;;
+    x <- build mx r ov val ;;
+    n <- set_field mx f "" empty_cfg (fst x) (snd x) ;;
     Ok (None, n)
   end.
 
@@ -140,21 +140,21 @@ Definition replace_child (f : field) (node : value) (v' : value) : value :=
   | _ => node
   end.
 
-Fixpoint set_path (fs : list field) (pp : string) (node : value) (ov : option string) (val : value)
+Fixpoint set_path (mx : Z) (fs : list field) (pp : string) (node : value) (ov : option string) (val : value)
   : res value :=
   match fs with
   | [] => Ok node
-  | [f] => set_field f pp node ov val
+  | [f] => set_field mx f pp node ov val
   | f :: rest =>
     let fresh :=
-        x <- build rest ov val ;; set_field f pp node (fst x) (snd x) in
+        x <- build mx rest ov val ;; set_field mx f pp node (fst x) (snd x) in
     match get_field f pp node with
     | Err EMissing _ => fresh
     | Err r p => Err r p
     | Ok None => fresh
     | Ok (Some (_, VNil)) => fresh
     | Ok (Some (pp', v)) =>
-      v' <- set_path rest pp' v ov val ;; Ok (replace_child f node v')
+      v' <- set_path mx rest pp' v ov val ;; Ok (replace_child f node v')
     | Panic => Panic
     | OutOfModel => OutOfModel
     end
@@ -162,7 +162,7 @@ Fixpoint set_path (fs : list field) (pp : string) (node : value) (ov : option st
 
 Definition set_value (o : popts) (rp : string) (name : string) (idx : Z) (ov : option string)
            (val : value) (root : value) : res value :=
-  set_path (opts_path_idx o name idx) rp root ov val.
+  set_path (p_maxIdx o) (opts_path_idx o name idx) rp root ov val.
 
 (** cfgPath.Remove *)
 Definition remove_field (f : field) (cur : value) : res (bool * value) :=
